@@ -1,6 +1,6 @@
 (* C24 — passive health filtering follows its failure-window rule.
    Statements only; every proof is `exact <lemma from Proof/C24.v>`. *)
-From Coq Require Import List NArith ZArith Bool.
+From Coq Require Import List NArith ZArith Bool Sorting.Sorted.
 From K.Gen Require Import C24_consts.
 From K.Model Require Import C24.
 From K.Proof Require C24.
@@ -38,6 +38,43 @@ Theorem C24_rule_reflects : forall c ts nw,
             c_fails c <= lenZ (filter (fun t' => (t' <=? t) && (t - t' <=? c_timeout c)) ts).
 Proof. exact Proof.C24.filtered_spec_iff. Qed.
 Print Assumptions C24_rule_reflects.
+
+(* Clause 1, positional wording: h is dropped exactly when, at the moment one of its failures
+   (at most FailTimeout ago) was recorded, at least Fails of the failures recorded for h so far,
+   itself included, were at most FailTimeout old. *)
+Theorem C24_filtered_iff_positional : forall raw ops addrs h,
+  monotone ops = true -> In h addrs ->
+  let c := apply_defaults raw in
+  let x := tl_of ops in
+  (~ In h (snd (run_filter c (fst (exec raw ops)) addrs))
+   <-> exists ts1 t ts2, times h (t_log x) = ts1 ++ t :: ts2 /\ 0 <= t_now x - t <= c_timeout c /\
+         c_fails c <= lenZ (filter (fun t' => t - t' <=? c_timeout c) (ts1 ++ [t]))).
+Proof. exact Proof.C24.filtered_iff_positional. Qed.
+Print Assumptions C24_filtered_iff_positional.
+
+(* the record the rule is evaluated on: `times h log` are exactly the failures logged for h, and
+   under clock advances they are in time order and not in the future *)
+Theorem C24_times_are_log : forall h t log, In t (times h log) <-> In (h, t) log.
+Proof. exact Proof.C24.times_In. Qed.
+Print Assumptions C24_times_are_log.
+
+Theorem C24_times_ordered : forall ops h, monotone ops = true ->
+  Sorted.StronglySorted Z.le (times h (t_log (tl_of ops))) /\
+  Forall (fun t => t <= t_now (tl_of ops)) (times h (t_log (tl_of ops))).
+Proof. exact Proof.C24.times_sorted. Qed.
+Print Assumptions C24_times_ordered.
+
+(* Reading of "within FailTimeout of some failure". The rule above uses the FailTimeout window
+   ENDING at that failure (config.go: "the window of time during which Fails must occur"). The
+   two-sided reading (FailTimeout before and after) is implied by it but is not what is
+   implemented: see C24_note_two_sided_reading below. *)
+Theorem C24_rule_implies_two_sided : forall c ts nw, 0 <= c_timeout c ->
+  (exists t, In t ts /\ 0 <= nw - t <= c_timeout c /\
+             c_fails c <= lenZ (filter (fun t' => (t' <=? t) && (t - t' <=? c_timeout c)) ts)) ->
+  (exists t, In t ts /\ 0 <= nw - t <= c_timeout c /\
+             c_fails c <= lenZ (filter (fun t' => (t - t' <=? c_timeout c) && (t' - t <=? c_timeout c)) ts)).
+Proof. exact Proof.C24.rule_implies_two_sided. Qed.
+Print Assumptions C24_rule_implies_two_sided.
 
 (* Run returns a subset of what it was given *)
 Theorem C24_run_subset : forall c s addrs h, In h (snd (run_filter c s addrs)) -> In h addrs.
@@ -113,3 +150,13 @@ Example C24_note_backward_clock :
   monotone ops = false /\
   snd (exec (mkcfg 2 10) ops) <> sexec (mkcfg 2 10) ops.
 Proof. vm_compute. split; [reflexivity|discriminate]. Qed.
+
+(* Note on the reading: failures at 0, 8, 16 with Fails 3, FailTimeout 10. The failure at 8 has
+   three failures within 10 on either side, yet no window of length 10 holds three, and the host
+   is not filtered (harness seed `seed-sliding-window` observes the same on the real code). *)
+Example C24_note_two_sided_reading :
+  let ops := [Failed false 0; Tick 8; Failed false 0; Tick 8; Failed false 0]%N in
+  let c := mkcfg 3 10 in
+  snd (run_filter c (fst (exec c ops)) [0%N]) = [0%N] /\
+  (3 <=? lenZ (filter (fun t' => (8 - t' <=? 10) && (t' - 8 <=? 10)) (times 0 (t_log (tl_of ops))))) = true.
+Proof. vm_compute. split; reflexivity. Qed.
